@@ -389,6 +389,39 @@ theorem rcbPart_spec (hst : ∀ n : Nat, 2 ≤ n → (splitRatio (α := α) (n :
         exact hpart hp'
       rw [storeParts_other _ _ i hno, List.getElem?_replicate, if_pos hi]
 
+/-- the range check of `ref_migrate_report_load_balance` passes on a part array whose owned entries lie in
+    `[0, npart)`, `npart ≤ ref_mpi_n` -/
+theorem reportOk_of_range (npart : Nat) (w : World (List (PNode α))) (parts : World (List Int))
+    (hn : npart ≤ w.length)
+    (h : ∀ (r : Nat) (nodes : List (PNode α)), w[r]? = some nodes →
+          ∃ pr : List Int, parts[r]? = some pr
+          ∧ ∀ (i : Nat) (nd : PNode α), nodes[i]? = some nd →
+              nd.part = (r : Int) → ∃ k, pr[i]? = some k ∧ 0 ≤ k ∧ k < (npart : Int)) :
+    reportOk w parts = true := by
+  unfold reportOk
+  rw [List.all_eq_true]
+  intro x hx
+  have hx' := List.mem_zipIdx_iff_getElem?.mp hx
+  obtain ⟨hw, hp⟩ := List.getElem?_zip_eq_some.mp hx'
+  obtain ⟨pr, hpr, hall⟩ := h x.2 x.1.1 hw
+  rw [hp] at hpr
+  cases hpr
+  rw [List.all_eq_true]
+  intro np hnp
+  obtain ⟨i, hi⟩ := List.mem_iff_getElem?.mp hnp
+  obtain ⟨h1, h2⟩ := List.getElem?_zip_eq_some.mp hi
+  by_cases hown : np.1.part = (x.2 : Int)
+  · obtain ⟨k, hk, hk0, hk1⟩ := hall i np.1 h1 hown
+    rw [h2] at hk
+    cases hk
+    have : (npart : Int) ≤ (w.length : Int) := by exact_mod_cast hn
+    simp only [Bool.or_eq_true, Bool.and_eq_true, decide_eq_true_eq]
+    right
+    exact ⟨hk0, by omega⟩
+  · simp only [Bool.or_eq_true, bne_iff_ne, ne_eq]
+    left
+    exact hown
+
 end Part
 
 end Refine.Lemmas.Rcb
